@@ -116,8 +116,17 @@ func (d docSpec) build() (*jsonapi.Document, *jsonapi.URL) {
 		doc.Errors = append(doc.Errors, je)
 	}
 	fields := map[string][]string{}
+	shared := map[string][]string{}
 	for k, v := range d.fields {
+		// two types given the same selection get the very same slice (as a caller who
+		// prepared one list for both would pass it)
+		key := strings.Join(v, "\x00")
+		if s, ok := shared[key]; ok && len(v) > 0 {
+			fields[k] = s
+			continue
+		}
 		fields[k] = append([]string{}, v...)
+		shared[key] = fields[k]
 	}
 	if d.fields == nil {
 		fields = nil // a URL written by hand without any selection
